@@ -1,9 +1,21 @@
 import SameVerif.Spec.FrontEnd
 import SameVerif.Spec.StreamObserved
+import SameVerif.Spec.StreamObserved2
 /-
-  Executable decision of `Spec.BurstObserved` on a tapped real run: are the hypotheses of
-  `C01.burst_delivered` / `Chain.transmission_decoded` met by what the DSP front end actually
-  delivered for this transmission?  (Evidence about the assumptions, not a verdict on the property.)
+  Are the front-end assumptions of the C01 theorems met by what the DSP front end actually
+  delivered on a tapped real run?  (Evidence about the assumptions, not a verdict on the property.)
+
+  Three layers:
+  * SEARCH (`alignBurst`, `checkBurstAt`, `checkTransmission`; `findBurst2`, `findTransmission2`):
+    locates every burst in the tick stream and finds its parameters (`acq`, `rel`, `sync`); names
+    the first clause that fails (diagnostics).  Unverified.
+  * VERDICT (`streamObservedB`, `streamObserved2B`): `decide` of the very propositions
+    `Spec.StreamObservedF` / `Spec.StreamObserved2F` that the theorems take as hypotheses, on the
+    positions the search found.  `streamObservedB_iff`, `streamObserved2B_iff`: a `true` verdict is
+    a proof of `StreamObserved` / `StreamObserved2` for `ticks.toList`; `C01s.checked_stream_bursts`
+    and `C01t.checked_stream_bursts2` draw the conclusion.
+  * the driver prints `fe_all=sat` iff `streamObservedB` (realistic assumptions, STEP 2) and
+    `fe2_all=sat` iff `streamObserved2B` (generalised synchronisation, STEP 4) returned `true`.
 
   The tick stream is rebuilt exactly as the link-model request does it: one observation per symbol
   tick, and the equalizer byte attached to the tick at which the model's byte clock consumes it.
@@ -151,5 +163,87 @@ def streamObservedWhy (maxErr : Nat) (ticks : Array Tick) (segs : List BurstSpec
   else match (List.range ticks.size).find? (fun t => decide (31 ≤ t) && !decide (InSynced segs t ∨ QuietAtF maxErr tk t)) with
     | some t => s!"hit_possible_at_{t}"
     | none => "none"
+
+/-! ### the generalised check (`Spec.StreamObserved2`: early, wrong-phase, dropped first hits allowed) -/
+
+/-- SEARCH (unverified): position parameters of one burst for `StreamObserved2` — `acq` from bits and
+    close threshold, `rel` from the close threshold, `sync` = the first byte-aligned body tick for which
+    the synchronisation clauses `SyncAt2F` hold (lead-in from tick `a`) -/
+def findBurst2 (maxErr : Nat) (ticks : Array Tick) (payload : List Byte) (a o : Nat) : Except String BurstSpec2 :=
+  let bits := (bitsOf (frameOf payload)).toArray
+  let n := bits.size
+  let tk (i : Nat) : Tick := ticks.getD i dfltTick
+  if o + n > ticks.size then .error "stream_too_short"
+  else if o < 32 then .error "lead_shorter_than_32"
+  else if o < a then .error "overlaps_previous_tail"
+  else
+    let a1 := match lastIdx n (fun j => (tk (o + j)).1.bit != bits.getD j false) with | some j => j + 1 | none => 0
+    let a2 := match lastIdx n (fun j => !(tk (o + j)).1.closeOk) with | some j => j + 1 | none => 0
+    let acq := max a1 a2
+    if acq > 89 then .error s!"acq_le:{acq}:bits={a1}:close={a2}"
+    else
+      let e := o + n
+      match firstIdx (ticks.size - e) (fun k => !(tk (e + k)).1.closeOk) with
+      | none => .error "rel_drop:never_released"
+      | some rel =>
+        match firstIdx 15 (fun q => decide (SyncAt2F maxErr tk (max a 31) ⟨o, payload, acq, 8 * (q + 1) + 7, rel⟩)) with
+        | none =>
+          let hits := (List.range 144).filter (fun r => potHit maxErr tk (o - 16 + r))
+          .error s!"no_sync:acq={acq}:hits_rel={hits.map (fun r => Int.ofNat r - 16)}"
+        | some q => .ok ⟨o, payload, acq, 8 * (q + 1) + 7, rel⟩
+
+def findTransmission2 (maxErr : Nat) (ticks : Array Tick) (bursts : List (List Byte × Nat)) : List (Except String BurstSpec2) := Id.run do
+  let mut a := 0
+  let mut out : List (Except String BurstSpec2) := []
+  for (p, hint) in bursts do
+    match alignBurst ticks p hint with
+    | none => out := .error "no_alignment" :: out
+    | some o =>
+      let r := findBurst2 maxErr ticks p a o
+      match r with
+      | .ok g => a := g.stop
+      | .error _ => a := o + 8 * (frameOf p).length
+      out := r :: out
+  return out.reverse
+
+def allFound2 : List (Except String BurstSpec2) → Option (List BurstSpec2)
+  | [] => some []
+  | .ok g :: rs => (allFound2 rs).map (g :: ·)
+  | .error _ :: _ => none
+
+/-- **the executable check is the hypothesis** of `C01t.stream_bursts2` / `Chain.stream_decoded2` -/
+def streamObserved2B (maxErr : Nat) (ticks : Array Tick) (segs : List BurstSpec2) : Bool :=
+  decide (StreamObserved2F maxErr (fun i => ticks.getD i dfltTick) ticks.size segs)
+
+theorem streamObserved2B_iff (maxErr : Nat) (ticks : Array Tick) (segs : List BurstSpec2) :
+    streamObserved2B maxErr ticks segs = true ↔ StreamObserved2 maxErr ticks.toList segs := by
+  have hf : (fun i => ticks.getD i dfltTick) = (fun i => ticks.toList.getD i dfltTick) := by
+    funext i
+    rw [Array.getD_eq_getD_getElem?, List.getD_eq_getElem?_getD, Array.getElem?_toList]
+  unfold streamObserved2B StreamObserved2
+  rw [decide_eq_true_iff, hf, Array.length_toList]
+
+theorem streamObserved2B_sound (maxErr : Nat) (ticks : Array Tick) (segs : List BurstSpec2)
+    (h : streamObserved2B maxErr ticks segs = true) : StreamObserved2 maxErr ticks.toList segs :=
+  (streamObserved2B_iff maxErr ticks segs).1 h
+
+/-- which clause fails first for burst `g` with lead-in from `a` (diagnostics only) -/
+def burstAt2Why (maxErr : Nat) (ticks : Array Tick) (a : Nat) (g : BurstSpec2) : String :=
+  let tk := fun i => ticks.getD i dfltTick
+  let F := (frameOf g.payload).length
+  if ¬ g.stop ≤ ticks.size then "tail_len"
+  else if ¬ (∀ m, m < F - 3 → (tk (g.o + (8 * (m + 3) + 7))).2 = (frameOf g.payload).getD m 0) then "eq_ok"
+  else if ¬ TrackAt2F tk ticks.size g then "track_other"
+  else if ¬ SyncAt2F maxErr tk (max a 31) g then "sync"
+  else if ¬ (∀ t, t < g.stop → g.e ≤ t → potHit maxErr tk t = false) then "tail_hit"
+  else "none"
+
+/-- per burst verdicts along the chain (diagnostics only; the verdict is `streamObserved2B`) -/
+def chainWhy2 (maxErr : Nat) (ticks : Array Tick) : Nat → List BurstSpec2 → List String
+  | a, [] =>
+    match (List.range ticks.size).find? (fun t => decide (a ≤ t) && decide (31 ≤ t) && potHit maxErr (fun i => ticks.getD i dfltTick) t) with
+    | some t => [s!"final_hit_possible_at_{t}"]
+    | none => []
+  | a, g :: gs => burstAt2Why maxErr ticks a g :: chainWhy2 maxErr ticks g.stop gs
 
 end SameVerif.Spec
